@@ -195,10 +195,11 @@ type vf09Sess struct {
 }
 
 // vf09Mon is the property evaluated directly on the calls seen by the provider, per session:
-//   brk  at most one Start per bracket (no Start after a Start until a Stop)
-//   stp  Stops only answer a Released notification, at most one, and only if the session was announced
-//        (Active/Restored) since the previous Stop/Released
-//   mono every Interim and the Stop carry values >= the last acknowledged Interim of the bracket
+//
+//	brk  at most one Start per bracket (no Start after a Start until a Stop)
+//	stp  Stops only answer a Released notification, at most one, and only if the session was announced
+//	     (Active/Restored) since the previous Stop/Released
+//	mono every Interim and the Stop carry values >= the last acknowledged Interim of the bracket
 type vf09Mon struct {
 	inside, armed  bool
 	prev           [4]uint64
@@ -364,7 +365,10 @@ func (w *vf09World) dump() string {
 	return strings.Join(parts, " ")
 }
 
-func vf09RunCase(line string) (res string) {
+// vf09RunCase runs one history.  g0 is the number of goroutines that exist while the case goroutine runs and
+// nothing spawned by the component is alive (measured once by the caller, after the previous case goroutine
+// has exited: measuring it per operation races with that exit and can end the wait early).
+func vf09RunCase(line string, g0 int) (res string) {
 	var w *vf09World
 	defer func() {
 		if r := recover(); r != nil {
@@ -414,7 +418,6 @@ func vf09RunCase(line string) (res string) {
 	}
 	for _, op := range f[2+k:] {
 		a := strings.Split(op, ",")
-		g0 := runtime.NumGoroutine()
 		w.ap.mu.Lock()
 		mark := len(w.ap.calls)
 		w.ap.fail = map[string]bool{}
@@ -561,14 +564,19 @@ func TestVerifC09(t *testing.T) {
 	defer wr.Flush()
 	sc := bufio.NewScanner(in)
 	sc.Buffer(make([]byte, 1<<20), 1<<26)
+	base := runtime.NumGoroutine()
 	for sc.Scan() {
 		line := sc.Text()
+		// the previous case goroutine (and anything it leaked) must be gone before the baseline is used
+		if !vf09Quiesce(base) {
+			base = runtime.NumGoroutine()
+		}
 		done := make(chan string, 1)
-		go func() { done <- vf09RunCase(line) }()
+		go func() { done <- vf09RunCase(line, base+1) }()
 		select {
 		case r := <-done:
 			fmt.Fprintln(wr, r)
-		case <-time.After(30 * time.Second):
+		case <-time.After(60 * time.Second):
 			fmt.Fprintln(wr, "hang")
 		}
 	}
